@@ -7,7 +7,9 @@ Explicit-state search over a machine with two registers r0, r1 holding real ``CH
                    a register, or a list)
                     new   r_t = CHText(x...)            0-1 parts anywhere; 2-3 parts from the initial state
                     add   r_t = r_s + x                 x: str, chunk, text
-                    iadd  r_t += x                      x: str, chunk, text (also r_t itself), list
+                    iadd  r_t += x                      x: str, chunk, text (also r_t itself), list, and
+                                                        [r_t], (r_t, x), [r_t, x]; appending a text to itself is
+                                                        executed up to length 2L+2 (terminal, not expanded)
                     radd  r_t = x + r_s                 x: str, chunk   (reflected +)
                     join  r_t = sep.join([...])         sep: text or chunk
                     slice r_t = r_s[a:b]                one representative (a, b) per distinct result
@@ -55,7 +57,8 @@ RULE = ("case = one machine state (complete concrete state of both registers + a
         "level-1 state reaching them), deeper states are distinct within a shard by its visited set; "
         "non-trivial: some register holds >= 2 chunks or the registers are aliased")
 ASSUMPTIONS = [
-    "operands are str, chunks produced by ColorFmt, CHText objects and lists of those (documented operands)",
+    "operands are str, chunks produced by ColorFmt, CHText objects and lists/tuples of those (documented "
+    "operands); a list may name the target of `+=` only as its first element",
     "format specs follow [[fill]align][width][s]; a leading 0 (zero padding flag) is outside fill/align/width",
     "slices have no step; texts contain no escape characters",
     "colors are those requested from ColorFmt; two different requests rendering alike are not compared",
@@ -67,7 +70,12 @@ REQUIRED_FEATURES = ["op:new", "op:add", "op:iadd", "op:radd", "op:join", "op:sl
                      "state:empty-chunk-dropped", "index:IndexError",
                      "iadd-after-observation:merges-into-last-chunk", "iadd-after-observation:starts-new-chunk",
                      "iadd-after-observation:operand-str", "iadd-after-observation:operand-chunk",
-                     "iadd-after-observation:operand-text", "iadd-after-observation:operand-list"]
+                     "iadd-after-observation:operand-text", "iadd-after-observation:operand-list",
+                     "self-append:direct", "self-append:in-list", "self-append:in-tuple",
+                     "self-append:three-chunks-same-end-colours",
+                     "self-append:three-chunks-same-end-colours:direct",
+                     "self-append:three-chunks-same-end-colours:in-list",
+                     "self-append:three-chunks-same-end-colours:in-tuple"]
 
 CHText = impl.CHText
 Chunk = impl.CHText.Chunk
@@ -162,11 +170,13 @@ def real_operand(x, regs):
         return regs[x[1]]
     if k == "l":
         return [real_operand(y, regs) for y in x[1]]
+    if k == "t":
+        return tuple(real_operand(y, regs) for y in x[1])
     raise ValueError(x)
 
 
 def _mentions(x, t):
-    return x == ["r", t] or (x[0] == "l" and any(_mentions(y, t) for y in x[1]))
+    return x == ["r", t] or (x[0] in ("l", "t") and any(_mentions(y, t) for y in x[1]))
 
 
 def _other_slots():
@@ -332,8 +342,10 @@ def gen_ops(refs, p, first, alias_ops):
         for s in (0, 1):
             for x in X:
                 yield ["add", t, s, x]
-        # a list operand naming the target itself has no str counterpart (outside the domain)
-        for x in X + lists0 + [["l", [["r", 1 - t], ["c", 2, "g"]]]]:
+        # a list/tuple operand may name the target itself as its FIRST element (`t += [t]`, `t += (t, x)`:
+        # the old value of t, then x); naming it after other elements has no str counterpart (outside the domain)
+        selfs = [["l", [["r", t]]], ["t", [["r", t], ["s", "a"]]], ["l", [["r", t], ["c", 1, "d"]]]]
+        for x in X + lists0 + [["l", [["r", 1 - t], ["c", 2, "g"]]]] + selfs:
             yield ["iadd", t, x]
         for s in (0, 1):
             for x in P:
@@ -673,10 +685,18 @@ class Machine:
         if id(regs[t]) not in self.observed:
             return
         x = op[2]
-        kind = {"s": "str", "c": "chunk", "r": "text", "l": "list"}[x[0]]
+        kind = {"s": "str", "c": "chunk", "r": "text", "l": "list", "t": "list"}[x[0]]
         f = self.feats
         f["iadd-after-observation:operand-" + kind] = f.get("iadd-after-observation:operand-" + kind, 0) + 1
         tv, ov = refs[t], M.operand_value(x, refs)
+        if _mentions(x, t):
+            runs = M.canon(tv)
+            how = {"r": "direct", "l": "in-list", "t": "in-tuple"}[x[0]]
+            f["self-append:" + how] = f.get("self-append:" + how, 0) + 1
+            if len(runs) >= 3 and runs[0][0] == runs[-1][0]:
+                k = "self-append:three-chunks-same-end-colours"
+                f[k] = f.get(k, 0) + 1
+                f[k + ":" + how] = f.get(k + ":" + how, 0) + 1
         if tv and ov:
             k = ("iadd-after-observation:merges-into-last-chunk" if tv[-1][1] == ov[0][1]
                  else "iadd-after-observation:starts-new-chunk")
@@ -843,10 +863,16 @@ def expand(m, hist, acc, seen, check, collect):
     else:
         alias_ops = _alias_only(m, regs, refs)
     for op in gen_ops(refs, p, not hist, alias_ops):
+        over_cap = False
         try:
             exp2 = apply_ref(op, refs)
             if len(exp2[op[1]]) > p["L"]:
-                continue                                   # disabled: result longer than the cap
+                # disabled: result longer than the cap -- except appending a text to itself, which is
+                # executed and checked up to twice the cap (+2) as a terminal transition (not expanded)
+                if op[0] == "iadd" and _mentions(op[2], op[1]) and len(exp2[op[1]]) <= 2 * p["L"] + 2:
+                    over_cap = True
+                else:
+                    continue
         except IndexError:
             pass
         mut = op[0] == "iadd"
@@ -881,6 +907,11 @@ def expand(m, hist, acc, seen, check, collect):
         if key in seen:
             continue
         seen.add(key)
+        if over_cap:
+            if check:
+                acc.case(nontrivial=True, features=state_features(refs2, op, p) + ["state:over-cap-self-append"],
+                         outcome="ok-over-cap-self-append")
+            continue
         if check:
             feats = state_features(refs2, op, p)
             _op_features(op, refs, refs2, acc)
